@@ -108,14 +108,15 @@ type ReplayResult struct {
 }
 
 type rgen struct {
-	e        *Engine
-	fi       *FuncInfo
-	pkgPath  string
-	imports  map[string]string // path -> name
-	nGrid    int
-	gridDoc  []string
-	needStub bool
-	fail     string
+	e          *Engine
+	fi         *FuncInfo
+	pkgPath    string
+	imports    map[string]string // path -> name
+	nGrid      int
+	gridDoc    []string
+	needStub   bool
+	needReport bool
+	fail       string
 }
 
 func importAlias(path string) string {
@@ -449,6 +450,15 @@ func (e *Engine) genHarness(fi *FuncInfo, ncases int) (string, string) {
 				continue
 			}
 			return "", "result slice of " + u.Elem().String()
+		case *types.Pointer:
+			if n, ok := u.Elem().(*types.Named); ok && n.Obj().Name() == "Report" {
+				drains = append(drains, fmt.Sprintf("rep%d := zzDrainReport(%s, &wg)", i, rn))
+				envVars = append(envVars, fmt.Sprintf("%q: reflect.ValueOf(rep%d)", "result", i))
+				outDoc = append(outDoc, fmt.Sprintf("%q: rep%d", "report", i))
+				g.needReport = true
+				continue
+			}
+			return "", "result of type " + rt.String()
 		case *types.Basic:
 			envVars = append(envVars, fmt.Sprintf("%q: zzScalar(%s)", key, rn))
 			if nres == 1 {
@@ -495,6 +505,12 @@ func (e *Engine) genHarness(fi *FuncInfo, ncases int) (string, string) {
 	var ips []string
 	for p := range g.imports {
 		ips = append(ips, p)
+	}
+	if g.needReport && !inHelper {
+		if _, ok := g.imports[modPath+"/helper"]; !ok {
+			ips = append(ips, modPath+"/helper")
+			g.imports[modPath+"/helper"] = "helper"
+		}
 	}
 	if g.needStub {
 		for _, p := range []string{modPath + "/asset", modPath + "/helper", modPath + "/strategy"} {
@@ -601,6 +617,53 @@ func (s *zzStub) Report(c <-chan *%[1]sSnapshot) *%[3]sReport { return nil }
 `, aq, sq, hq2)
 	}
 	_ = hq
+	if g.needReport {
+		hq3 := "zz_helper."
+		if inHelper {
+			hq3 = ""
+		}
+		fmt.Fprintf(&sb, `
+// drain the date axis and every column's value channel (read through reflection) concurrently
+func zzDrainReport(r *%[1]sReport, wg *sync.WaitGroup) *zzReport {
+	out := &zzReport{}
+	var mu sync.Mutex
+	wg.Add(1)
+	go func() {
+		defer wg.Done()
+		for d := range r.Date {
+			mu.Lock()
+			out.Date = append(out.Date, float64(d.Unix()))
+			mu.Unlock()
+		}
+	}()
+	for _, col := range r.Columns {
+		zc := &zzCol{Name: col.Name()}
+		out.Columns = append(out.Columns, zc)
+		f := reflect.ValueOf(col).Elem().FieldByName("values")
+		f = reflect.NewAt(f.Type(), unsafe.Pointer(f.UnsafeAddr())).Elem()
+		wg.Add(1)
+		go func(f reflect.Value, zc *zzCol) {
+			defer wg.Done()
+			for {
+				v, ok := f.Recv()
+				if !ok {
+					return
+				}
+				mu.Lock()
+				if v.Kind() == reflect.String {
+					zc.Strs = append(zc.Strs, v.String())
+					zc.Vals = append(zc.Vals, float64(len(v.String())))
+				} else {
+					zc.Vals = append(zc.Vals, v.Float())
+				}
+				mu.Unlock()
+			}
+		}(f, zc)
+	}
+	return out
+}
+`, hq3)
+	}
 	fmt.Fprintf(&sb, `
 func zzFeedT[T any](vals []T, taken *int64) <-chan T {
 	c := make(chan T)
@@ -773,7 +836,7 @@ func resAssign(r []string) string {
 func filterEnvPre(vars []string) []string {
 	var out []string
 	for _, v := range vars {
-		if strings.Contains(v, "col") || strings.Contains(v, ": zzScalar(r") || strings.Contains(v, "[]float64(r") || strings.Contains(v, "zzCols(") {
+		if strings.Contains(v, "col") || strings.Contains(v, "ValueOf(rep") || strings.Contains(v, ": zzScalar(r") || strings.Contains(v, "[]float64(r") || strings.Contains(v, "zzCols(") {
 			continue
 		}
 		out = append(out, v)
